@@ -105,8 +105,12 @@ class C15:
             env.update(h.env)
             cmd = (wrapper or []) + [h.bin, "--out", out, "--replay-out", rep]
             rc, log, wall = core.run(cmd, env=env, timeout=4 * 3600)
-            stats = json.load(open(out)) if os.path.exists(out) else None
-            replay = json.load(open(rep)) if os.path.exists(rep) else None
+            def load(path):
+                try:
+                    return json.load(open(path))
+                except Exception:  # noqa  (a dying process may leave a truncated file)
+                    return None
+            stats, replay = load(out), load(rep)
             return {"cfg": name, "h": h, "shard": i, "rc": rc, "log": log, "stats": stats, "replay": replay, "wall": wall}
         # valgrind jobs first: they are the long poles
         jobs.sort(key=lambda j: 0 if j[3] else 1)
@@ -132,6 +136,8 @@ class C15:
                 viol += 1
                 continue
             s = r["stats"]
+            if s is None:
+                raise core.InfraError(f"{r['h'].name} shard {r['shard']} exited 0 without statistics")
             evaluations += s["evaluations"]
             if r["cfg"] == configs[0][0]:
                 nontrivial += s["distinct_nontrivial"]
